@@ -609,7 +609,7 @@ theorem pollWithArrivals_eq (net : Nat) (respond : Nat → Nat → Resp) (fuel :
               (clientRecv st0.next maxRequestLength 0 items) with
           | (st', res', .cont) =>
             if pending ≤ st'.next then (st', res')
-            else if res'.received = 0 then (st', { res' with status := .failed })
+            else if res'.received = res.received then (st', { res' with status := .failed })
             else poll net respond fuel 1 st' res'
           | (st', res', _) => (st', res') := by
   unfold pollWithArrivals
